@@ -107,7 +107,7 @@ pub trait Probe {
 }
 
 macro_rules! payload {
-    ($name:ident, $repr:meta, $padlen:expr) => {
+    ($name:ident, $repr:meta, $padlen:expr, $tag:expr) => {
         #[$repr]
         pub struct $name {
             pub magic: u32,
@@ -118,7 +118,7 @@ macro_rules! payload {
         impl Pay for $name {
             const NAME: &'static str = stringify!($name);
             fn mk(val: u32) -> Self {
-                $name { magic: MAGIC, id: fresh_id(), val, pad: [0x11; $padlen] }
+                $name { magic: MAGIC ^ $tag, id: fresh_id(), val, pad: [0x11; $padlen] }
             }
             fn set_val(&mut self, v: u32) {
                 self.val = v;
@@ -127,7 +127,9 @@ macro_rules! payload {
                 let magic = std::ptr::addr_of!((*p).magic).read_volatile();
                 let id = std::ptr::addr_of!((*p).id).read_volatile();
                 let val = std::ptr::addr_of!((*p).val).read_volatile();
-                Seen { ok: magic == MAGIC, id, val, magic }
+                // the magic is specific to the type: a destructor (or accessor) of another payload type run on
+                // this value sees a foreign magic
+                Seen { ok: magic == MAGIC ^ $tag, id, val, magic }
             }
         }
         impl Probe for $name {
@@ -147,7 +149,7 @@ macro_rules! payload {
                     LOG.push(Ev::Clone { src: self.id, new: 0, tid: crate::ev::tid() });
                     std::panic::panic_any(ClonePanic);
                 }
-                let n = $name { magic: MAGIC, id: fresh_id(), val: self.val, pad: [0x11; $padlen] };
+                let n = $name { magic: MAGIC ^ $tag, id: fresh_id(), val: self.val, pad: [0x11; $padlen] };
                 if let Some(f) = CLONE_HOOK.with(|c| c.borrow_mut().take()) {
                     f();
                 }
@@ -170,12 +172,12 @@ macro_rules! payload {
 }
 
 // A: 12 bytes, align 4 (the count's own alignment suffices: data offset 8)
-payload!(A, repr(C), 0);
+payload!(A, repr(C), 0, 0x0A);
 // B: 320 bytes, align 16 (over-aligned: data offset 16, padding after the count; larger than any
 // "small payload" threshold)
-payload!(B, repr(C, align(16)), 305);
+payload!(B, repr(C, align(16)), 305, 0x0B00);
 // E: element type of the header-slice family (16 bytes, align 4)
-payload!(E, repr(C), 4);
+payload!(E, repr(C), 4, 0x0E_0000);
 
 /// zero-sized header with a destructor: all of its instances share one identity
 pub const ZID: u32 = 0xFFFF_FF00;
